@@ -26,8 +26,8 @@ using namespace sim;
 
 namespace {
 
-enum WKind { W_EXPORT_SINK, W_EXPORT_FILE, W_READ, W_RENDER, W_TABLES, W_NK };
-const char* WN[] = {"export-to-sink", "export-to-simfs-file", "read-buffer", "render-records", "block-tables"};
+enum WKind { W_EXPORT_SINK, W_EXPORT_FILE, W_READ, W_RENDER, W_TABLES, W_EXPORT_FD, W_NK };
+const char* WN[] = {"export-to-sink", "export-to-simfs-file", "read-buffer", "render-records", "block-tables", "export-to-descriptors"};
 
 struct Work {
     WKind kind;
@@ -102,6 +102,33 @@ void do_work(Work& w) {
                     export_records(ex, sw, w.seed, 30, sw.sets[0].storage_parameters.ticks_per_second);
                 }
                 w.result = name + ext;   // the file is collected from SimFS by the main thread after the join
+                break;
+            }
+            case W_EXPORT_FD: {
+                // descriptor outputs with the error path of an application: a rotation onto a descriptor that is not open fails and is
+                // caught, the worker carries on buffering and rotates onto a good descriptor later. Descriptor numbers are a process-wide
+                // resource: whatever number this worker's writer has closed may be handed to another thread by the next open().
+                simfs::FS& F = simfs::fs();
+                std::string na = "t" + std::to_string(w.id) + "a", nb = "t" + std::to_string(w.id) + "b", nc = "t" + std::to_string(w.id) + "c";
+                std::string note;
+                {
+                    std::vector<CDNS::BlockParameters> sets = sw.sets;
+                    sets[0].storage_parameters.max_block_items = 10000;
+                    CDNS::FilePreamble fp(sets);
+                    uint64_t tps = sets[0].storage_parameters.ticks_per_second;
+                    CDNS::CdnsExporter ex(fp, F.make_fd(na), (CDNS::CborOutputCompression)w.comp);
+                    export_records(ex, sw, w.seed, 12, tps);
+                    try { ex.rotate_output(-1, true); note += "rotation onto -1 returned;"; } catch (std::exception& e) { note += std::string("rotation onto -1 threw;"); }
+                    {   // records that stay buffered while the exporter has no usable output
+                        Rng r(w.seed + 2);
+                        for (unsigned i = 0; i < 20; i++) { gen::RecGen g(sw, r.next()); ex.buffer_qr(g.qr(tps)); }
+                    }
+                    try { ex.rotate_output(F.make_fd(nb), false); } catch (std::exception& e) { note += std::string("rotation onto a good descriptor threw: ") + e.what() + ";"; }
+                    export_records(ex, sw, w.seed + 1, 10, tps);
+                    try { ex.rotate_output(F.make_fd(nc), true); } catch (std::exception& e) { note += std::string("second rotation threw: ") + e.what() + ";"; }
+                }
+                w.result = note + "|";
+                for (auto& n : {na, nb, nc}) { auto ino = F.fd_inode(n); w.result += (ino ? ino->data : std::string("<none>")) + "|" + (ino && ino->opens ? "still-open|" : ""); }
                 break;
             }
             case W_READ: {
